@@ -5,12 +5,14 @@ CONSTANTS
   MaxDebounce = 2
   MaxEvents = 0
   MaxProbeFail = 0
+  MaxCtlFail = 0
   MaxAddHost = 0
   OnlyDebouncer = TRUE
   WithControl = FALSE
   Defect_StopHandshake = FALSE
   Defect_HeartbeatStart = FALSE
   Defect_LatePool = FALSE
+  Defect_ReconnectInline = FALSE
   Mut = "none"
 ACTION_CONSTRAINT EmitEdge
 INVARIANT InitMark
